@@ -250,21 +250,41 @@ Proof.
   rewrite Hb. eauto.
 Qed.
 
+Lemma region_lists_nonempty s : forall es ls, region_lists s es = Some ls -> Forall (fun l : list nat => l <> []) (map snd ls).
+Proof.
+  induction s as [|d s IH]; intros [|e es] ls H; cbn in H; try discriminate.
+  - inversion H. constructor.
+  - destruct (elem_indices d e) as [x|] eqn:E; [|discriminate].
+    destruct (region_lists s es) as [r|] eqn:R; [|discriminate]. inversion H; subst. cbn. constructor; [|eapply IH; eauto].
+    destruct e as [z|a b c|l]; cbn in E.
+    + destruct (norm_index d z); [|discriminate]. inversion E. cbn. discriminate.
+    + destruct (py_slice d a b c) eqn:P; [discriminate|]. inversion E. cbn. discriminate.
+    + destruct l as [|z l]; [discriminate|]. destruct (forallb _ (z :: l)); [|discriminate]. inversion E. cbn. discriminate.
+Qed.
+
+Lemma cartF_nonempty' ls : Forall (fun l : list nat => l <> []) ls -> cartF ls <> [].
+Proof.
+  induction 1 as [|l r Hl Hr IH]; cbn; [discriminate|].
+  destruct (cartF r) as [|t ts]; [contradiction|]. destruct l as [|x xs]; [contradiction|]. discriminate.
+Qed.
+
+(* NO hypothesis on the key any more (wave 3): an index repeated inside a key list addresses its positions twice; the sparse
+   model keeps, for every position, its last value (dedupe_last), so its distinctness check cannot fail *)
 Theorem sparse_region_admissible (S : sparse V) es (r : rhs V) s' asg :
-  wf_sp isz S -> Forall elem_nodup es ->
+  wf_sp isz S ->
   resolve_set cartF (sshape S) (KRegion es) r = Some (s', asg) ->
   exists S', step_sparse v0 isz S (OSet (KRegion es) r) = Some (S', ([], [])).
 Proof.
-  intros W Hes E. cbn [step_sparse].
+  intros W E. cbn [step_sparse].
   pose proof E as E0. unfold resolve_set in E.
   destruct (region_ok (sshape S) es) eqn:Ok; [|discriminate]. cbv zeta in E.
   set (sg := grow (sshape S) (map elem_need es)) in *.
   destruct (region_lists sg es) as [ls|] eqn:Hl; [|discriminate].
-  pose proof (region_lists_nodup _ _ _ Hes Hl) as Hls.
+  pose proof (region_lists_nonempty _ _ _ Hl) as Hls.
   pose proof (finish_set_keys _ _ _ _ _ E) as Hk.
   pose proof (finish_set_inb _ _ _ _ _ E) as (-> & Hin & _).
   assert (Hpos : Forall (fun d => 1 <= d) sg).
-  { pose proof (cartF_nonempty _ Hls) as Hne. destruct (cartF (map snd ls)) as [|p ps] eqn:Ec; [contradiction|].
+  { pose proof (cartF_nonempty' _ Hls) as Hne. destruct (cartF (map snd ls)) as [|p ps] eqn:Ec; [contradiction|].
     destruct asg as [|[p' v'] asg']; [discriminate|]. cbn in Hk. inversion Hk; subst.
     apply (inb_dims_pos sg p). apply (Hin (p, v')). cbn; auto. }
   destruct r as [v|vs].
@@ -277,13 +297,14 @@ Proof.
       rewrite (forallb_ext_in _ _ _ Hsame).
       unfold finish_set, rhs_values in E. destruct (forallb (inb sg) (cartF (map snd ls))); [reflexivity|discriminate]. }
     rewrite EC.
-    destruct (sp_set_some S (map elem_need es) (combine (cartC (map snd ls)) (repeat v (length (cartC (map snd ls))))) false W)
+    destruct (sp_set_some S (map elem_need es)
+                (dedupe_last (combine (cartC (map snd ls)) (repeat v (length (cartC (map snd ls)))))) false W)
       as (S' & HS'); auto.
-    { rewrite map_fst_combine by apply repeat_length. now apply cartC_nodup. }
+    { apply dedupe_last_nodup. }
     fold sg in HS'. rewrite HS'. eauto.
   - rewrite E0.
-    destruct (sp_set_some S (map elem_need es) asg true W) as (S' & HS'); auto.
-    { rewrite Hk. now apply cartF_nodup. }
+    destruct (sp_set_some S (map elem_need es) (dedupe_last asg) true W) as (S' & HS'); auto.
+    { apply dedupe_last_nodup. }
     fold sg in HS'. rewrite HS'. eauto.
 Qed.
 
@@ -292,13 +313,13 @@ End A.
 (* ------------------------------------------------------------------------------------------------ *)
 (* (3) total one-step refinement on the sparse side: the specification and the sparse model accept together  *)
 (* ------------------------------------------------------------------------------------------------ *)
-(* the operations sptensor offers: every read; writes by subscript array; writes by region whose index lists do not repeat
-   an index (linear assignment is documented as unsupported by sptensor) *)
+(* the operations sptensor offers: every read; writes by subscript array; writes by region — index lists MAY repeat an index
+   since wave 3 (linear assignment is documented as unsupported by sptensor) *)
 Definition sparse_op_ok {V} (o : op V) : Prop :=
   match o with
   | OGet _ => True
   | OSet (KSubs _) _ => True
-  | OSet (KRegion es) _ => Forall elem_nodup es
+  | OSet (KRegion es) _ => True
   | OSet _ _ => False
   end.
 
@@ -319,7 +340,7 @@ Proof.
       destruct (resolve_set cartF (sshape S) k r) as [[s' asg]|] eqn:E; [|discriminate].
       destruct k as [z|l|a b c|rows|es]; cbn in Hok; try contradiction.
       + destruct (sparse_subs_admissible v0 isz S rows r s' asg W E) as (S' & H). eauto.
-      + destruct (sparse_region_admissible v0 isz S es r s' asg W Hok E) as (S' & H). eauto. }
+      + destruct (sparse_region_admissible v0 isz S es r s' asg W E) as (S' & H). eauto. }
   destruct Hstep as (S' & out' & Hstep).
   destruct (refine_sparse v0 isz isz_spec S o S' out' W Hstep) as (a'' & Hs' & Heq & W').
   rewrite Hs in Hs'. inversion Hs'; subst. eauto.
